@@ -23,6 +23,7 @@ for profile in extract.PROFILES:
         e = fns.setdefault(f.name, {'crate': f.crate, 'exported': bool(f.d.get('exported')), 'hash': {}})
         e['hash'][profile] = normalize.fingerprint(f)
         e['loops'] = bool(e.get('loops')) or not f.is_acyclic()
+        e['callees'] = sorted(set(e.get('callees', [])) | {t.get('resp') or t.get('calleep') for b in f.blocks for t in [b['term']] if t['k'] == 'call' and t.get('local') and (t.get('resp') or t.get('calleep'))})
 for n in dups:
     fns[n]['hash'] = {}
 adts = {}
